@@ -235,11 +235,12 @@ def run_check(modname, tier="quick", vseed=0, workers=None, scale=1.0, wall_limi
     for sig, n in known_hit:
         print("KNOWN-FINDING: property=%s %s [%s; %d runs]" % (
             check.ID, open_sigs[sig]["what_fails"], sig, n), file=out)
-    for sig, n, msg, path in new_violations[:12]:
+    maxsig = int(os.environ.get("VERIF_MAXSIG", "12"))
+    for sig, n, msg, path in new_violations[:maxsig]:
         print("  signature %s (%d runs): %s" % (sig, n, msg.splitlines()[0][:300]), file=out)
         print("VIOLATION property=%s replay=%s" % (check.ID, path), file=out)
-    if len(new_violations) > 12:
-        print("  ... and %d more signatures (all have replay files)" % (len(new_violations) - 12), file=out)
+    if len(new_violations) > maxsig:
+        print("  ... and %d more signatures (all have replay files)" % (len(new_violations) - maxsig), file=out)
     if errors:
         for e in errors[:5]:
             print("HARNESS-ERROR property=%s %s" % (check.ID, e), file=out)
